@@ -833,6 +833,7 @@ func RunScns(cfg vsched.Config, top ...*Scn) *Result {
 		if len(n.Listeners) > before {
 			listenerOf[i] = n.Listeners[len(n.Listeners)-1]
 			listenerOf[i].Expect = 1
+			listenerOf[i].NotYet = true
 		}
 	}
 	for i, sc := range scns {
@@ -859,6 +860,11 @@ func RunScns(cfg vsched.Config, top ...*Scn) *Result {
 				var cancel context.CancelFunc
 				ctx, cancel = vctxWithCancelAt(sc.CancelAtMs)
 				defer cancel()
+			}
+			if l := listenerOf[i]; l != nil {
+				l.NotYet = false
+			} else if sc.ShareListener > 0 && listenerOf[sc.ShareListener-1] != nil {
+				listenerOf[sc.ShareListener-1].NotYet = false
 			}
 			r, err := RunVariant(ctx, sc, ports[i])
 			o := res.Obs[i]
